@@ -404,6 +404,20 @@ impl<'p> Ctx<'p> {
                 if !c.spec.trim().is_empty() {
                     self.insert(bs, format!("\n{}\n", c.spec.trim_end()));
                 }
+                // `//@ after N`: proof text placed after the N-th top-level statement of the body (0-based)
+                if !external {
+                    for (k, t) in c.loops.iter() {
+                        if let Some(n) = k.strip_prefix('s').and_then(|x| x.parse::<usize>().ok()) {
+                            match b.stmts.get(n) {
+                                Some(st) => {
+                                    let (_, se) = br(st.span());
+                                    self.insert(se, format!("\n{}\n", t.trim_end()));
+                                }
+                                None => self.out.errors.push(format!("lost anchor: statement {} of `{}` (body has {} statements)", n, key, b.stmts.len())),
+                            }
+                        }
+                    }
+                }
                 // (entry text is inserted in leave_fn, after the generated string-literal facts)
                 if !c.exit.trim().is_empty() && !external {
                     let tail = match b.stmts.last() {
@@ -411,7 +425,13 @@ impl<'p> Ctx<'p> {
                         _ => false,
                     };
                     if tail {
-                        self.out.errors.push(format!("unsupported construct: exit hint on `{}` whose body has a tail expression", key));
+                        // R26: `{ ...; E }` -> `{ ...; let vx_ret = E; <exit hint>; vx_ret }` (the hint may mention vx_ret)
+                        if let Some(syn::Stmt::Expr(te, None)) = b.stmts.last() {
+                            let (ts, te_) = br(te.span());
+                            self.insert(ts, "let vx_ret = ".into());
+                            self.insert(te_, format!(";\n{}\nvx_ret", c.exit.trim_end()));
+                            self.out.log.push(format!("{}:{} R26 tail expression of {} bound to vx_ret so that the exit hint can follow it", short(&self.plan.file), self.line_of(ts), key));
+                        }
                     } else {
                         let (_, be) = br(b.span());
                         self.insert(be - 1, format!("\n{}\n", c.exit.trim_end()));
@@ -490,6 +510,9 @@ impl<'p> Ctx<'p> {
         }
         if let Some(c) = &f.contract {
             for k in c.loops.keys() {
+                if k.starts_with('s') {
+                    continue; // statement hint (`//@ after N`), checked where it is applied
+                }
                 let n: usize = k.split('.').next().unwrap_or("").parse().unwrap_or(usize::MAX);
                 if n >= f.loop_ord && !f.external {
                     self.out.errors.push(format!(
